@@ -12,7 +12,7 @@ Line protocol of the `vars` / `varscli` domains (see each `do…` for the exact 
 `vars.envpipe`  the environment pipeline (`Vars.EnvPipe`): `{{.N}}` / `$N` per name
 `vars.fshist`   a sequence of calls whose commands rewrite files later `sh:` variables read (`Vars.World`)
 `vars.env`, `vars.envchain`, `vars.dotenvchain`, `vars.loop`, `vars.product`   (older ops)
-`vars.run`, `vars.climon`, `vars.postmon`, `vars.fsmon`   echo lines: the expectation is part of the case (run-phase consistency; monitors of open findings)
+`vars.run`, `vars.climon`, `vars.postmon`, `vars.fsmon`, `vars.callmon`   echo lines: the expectation is part of the case (run-phase consistency; monitors of open findings)
    definition block = `<n> (name kind <nparts> part*)*`; kind = `l` (literal template) | `s` (sh) | `S` (sh + directory override) | `r` (ref, one part `r<name>`);
    part = `t<hex>` | `r<name>`.
    Shell oracle: a command starting with `$` prints the variable whose decimal id follows
@@ -237,6 +237,8 @@ def handle (op : String) (args : List String) : Option String :=
   | "vars.fshist" => run doFsHist
   -- monitor of C11 over the file system: `vars.fsmon <call> <what the call reads ALONE in the world as it is>`
   | "vars.fsmon" => match args with | [_, want] => some want | _ => none
+  -- monitor of C02 "variables passed in a call are the ones the callee sees": `vars.callmon <mode> <the value handed over>`
+  | "vars.callmon" => match args with | [_, want] => some want | _ => none
   -- monitor of "special variables are available": `vars.climon <name> <value the rule demands>`
   | "vars.climon" => match args with | [_, want] => some want | _ => none
   -- monitor of "available unless overridden" for the POST layer: `vars.postmon <name> <value the rule demands>`
